@@ -5,12 +5,12 @@ ids="$*"; [ -z "$ids" ] && ids="C01 C02 C03 C04 C05 C06 C07 C08 C09 C10 C11 C12 
 cd /repo || exit 2
 [ -n "$(git status --porcelain --untracked-files=no)" ] && { echo "repo dirty" >&2; exit 2; }
 git apply "$patch" || { echo "patch does not apply" >&2; exit 2; }
-trap 'git -C /repo checkout -- . ; git -C /repo clean -fdq src; find /verif/replays -name "found-*" -newer /tmp/.seeded_stamp -delete 2>/dev/null' EXIT
+trap 'git -C /repo checkout -- . ; git -C /repo clean -fdq src; find ${VERIF_ROOT:-/verif}/replays -name "found-*" -newer /tmp/.seeded_stamp -delete 2>/dev/null' EXIT
 touch /tmp/.seeded_stamp
 export TACHECK_EVIDENCE_DIR=/tmp/seeded-evidence; mkdir -p $TACHECK_EVIDENCE_DIR
 caught=""
 for id in $ids; do
-  out=$(cd /verif && ./check "$id" --no-regress 2>&1); c=$?
+  out=$(cd "${VERIF_ROOT:-/verif}" && ./check "$id" --no-regress 2>&1); c=$?
   if [ $c -eq 1 ]; then caught="$caught $id"; echo "== $id CAUGHT: $(echo "$out" | grep -E "signature=" | head -1 | cut -c1-200)"; echo "     $(echo "$out" | grep -E "detail=" | head -1 | cut -c1-300)";
   elif [ $c -ne 0 ]; then echo "== $id exit=$c $(echo "$out" | grep -E "INCONCLUSIVE|error" | head -2 | cut -c1-200)"; fi
 done
